@@ -211,4 +211,3 @@ func (o *Oracle) EnumPositions(src engine.Value, S, T types.Type, path string, o
 		}
 	}
 }
-
